@@ -576,7 +576,8 @@ class ClockTask():
         try:
             _libsc3.main._update_logical_time(time)
             delta = self.task.__awake__(self.clock)
-            if isinstance(delta, (int, float)) and not isinstance(delta, bool):
+            if isinstance(delta, (int, float)) and not isinstance(delta, bool)\
+            and delta != float('inf'):  # As sched(), inf is never.
                 self.beats = self.beats + delta
                 self.scheduler.add(self.clock.beats2secs(self.beats), self)
         except stm.StopStream:
